@@ -21,10 +21,12 @@ import sys
 from lib.framework import Check, TimeLimit
 from harness import c12_engine as E
 from harness import c12_ops as O
-from gen import c12_sites, c12_capture
+from harness import c12_memo as MM
+from gen import c12_sites, c12_capture, c12_mutables
 
 WORKER = os.path.join(os.path.dirname(os.path.abspath(__file__)), 'c12_worker.py')
 KNOWN_INDENT = 'C12-indent-specificities'
+KNOWN_CAPTURE = 'C12-capture-sheets-shared'
 
 CLASS_MAP = {
     'SyntaxErr': 'dom', 'InvalidModificationErr': 'dom', 'HierarchyRequestErr': 'dom', 'NoModificationAllowedErr': 'dom',
@@ -152,7 +154,7 @@ class C12(Check):
     sources = ('cssutils/parse.py', 'cssutils/prodparser.py', 'cssutils/tokenize2.py', 'cssutils/errorhandler.py',
                'cssutils/util.py', 'cssutils/__init__.py', 'cssutils/script.py', 'cssutils/profiles.py',
                'cssutils/serialize.py', 'cssutils/stylesheets/mediaquery.py', 'cssutils/stylesheets/medialist.py',
-               'cssutils/css/cssimportrule.py', 'conftest.py')
+               'cssutils/css/cssimportrule.py', 'cssutils/settings.py', 'cssutils/cssproductions.py', 'conftest.py')
     trusted_base = (
         'hand-written models Model/GlobalsProd.lean (ProdParser.parse, Choice/Sequence.nextProd, _SorTokens, savedTokens, '
         '_pushed) and Model/Globals.lean (CSSParser entry points, __parseSetting, csscombine, the indentSpecificities memo), '
@@ -160,7 +162,11 @@ class C12(Check):
         'the abstraction of a call body as a script of log calls / @import fetches / production-parser call trees: '
         'completeness of that alphabet rests on the writer table (Gen/C12Sites.lean, AST scan) and on the '
         'implementation-side snapshot of all module-level state around every call',
-        'tools/harness/c12_*.py (generators, canonical observations, worker processes) and tools/gen/c12_sites.py',
+        'hand-written model Model/GlobalsMemo.lean (_TOKENIZER_CACHE look-up, settings.set, _expand_macros / '
+        '_compile_productions up to re.compile, LazyRegex), tied by the memo correspondence of this run (real MACROS / '
+        'PRODUCTIONS, every pattern text compared) and by the regenerated table of all module-level mutables and writers',
+        'tools/harness/c12_*.py (generators, canonical observations, worker processes), tools/gen/c12_sites.py and '
+        'tools/gen/c12_mutables.py (objects are recognised by name; aliases through parameters / locals are not followed)',
     )
     assumptions = (
         'user callbacks (fetchers) may call the library but do not assign cssutils.log.raiseExceptions, preferences or '
@@ -168,7 +174,9 @@ class C12(Check):
         'termination of the production engine is not used: every C12 theorem holds for every fuel and every outcome',
         'at most one token is in the tokenizer push-back queue when it is drained (true of every grammar in the code '
         'base; the driver reports `unsupported` otherwise and the case is skipped and counted)',
-        'logging handlers and the tokenizer regex cache are not part of the modelled state (pure memo / output only)',
+        'logging handlers are not part of the modelled state (output only); the memo tables are (Model/GlobalsMemo.lean): '
+        'arguments of Tokenizer(...) are None / dict / list of pairs, str() of the cache key is injective on them, '
+        're.compile is a parameter of the theorems (cases in which it raises are counted and skipped by the memo stream)',
     )
     rule = ('engine: random environments of 1-3 grammars (Sequence/Choice/Prod trees, all flags, nested parsers through '
             'toSeq, hand-back discipline kept in 2/3 and broken on purpose in 1/3 of the cases) x token streams from a '
@@ -176,8 +184,11 @@ class C12(Check):
             'savedTokens and _pushed. histories: 20-60 calls over all entry points, helper functions, constructors with '
             'malformed text, csscombine, resolveImports, serialisation, explicit settings; faults: undecodable bytes, '
             'missing file, fetcher raising OSError/ValueError/RuntimeError or re-entering the library, raising parsers. '
+            'memo: histories of 5-18 Tokenizer(macros, productions) / settings.set steps over 10 x 9 argument shapes '
+            'derived from the real tables, each in a fresh process; LazyRegex: catalogue and sampled profile patterns x '
+            'random method calls. '
             'non-trivial = an engine case in which a token was handed back, pushed or popped, or a history that '
-            'contains at least two different fault classes')
+            'contains at least two different fault classes, or a memo history with a hit and at least three kinds of outcome')
 
     # ------------------------------------------------------------------------------------------
     def translate(self, ctx):
@@ -187,7 +198,25 @@ class C12(Check):
         ctx.notes['captured_grammars'] = ['%d:%s' % (i, g['name']) for i, g in enumerate(data['grammars'])]
         ctx.notes['captured_standalone'] = data['standalone']
         files.update(gfiles)
+        mfiles, (defs, writes, fields) = c12_mutables.generate(ctx.repo)
+        ctx.notes['module_level_mutables'] = len(defs)
+        ctx.notes['mutable_writers'] = len(writes)
+        files.update(mfiles)
         return files
+
+    def search(self, ctx):
+        """look for a concrete failing input: the cheap streams (memo tables, fixed histories) first at thorough size,
+        the whole thorough run only if they find nothing"""
+        ctx.tier_counts = 'thorough'
+        ctx.search_mode = True
+        self.pool = concurrent.futures.ThreadPoolExecutor(max_workers=min(12, (os.cpu_count() or 4)))
+        try:
+            for phase in (self.corr_memo, self.corr_lazy, self.oracle_fixed):
+                ctx.phase(phase, ctx)
+        finally:
+            self.pool.shutdown(wait=False)
+        if not ctx.violations and not os.environ.get('C12_SHALLOW_SEARCH'):     # (set while trying out mutations)
+            self.run(ctx)
 
     def run(self, ctx):
         try:
@@ -198,7 +227,8 @@ class C12(Check):
         self.pool = concurrent.futures.ThreadPoolExecutor(max_workers=min(12, (os.cpu_count() or 4)))
         try:
             # every phase runs even if an earlier one could not (ctx.phase records that as a broken obligation)
-            for phase in (self.corpus, self.corr_engine, self.calibrate, self.corr_history, self.oracle_fixed,
+            for phase in (self.corpus, self.corr_engine, self.corr_memo, self.corr_lazy, self.calibrate, self.corr_history,
+                          self.oracle_fixed,
                           self.oracle_history):
                 ctx.phase(phase, ctx)
         finally:
@@ -277,6 +307,158 @@ class C12(Check):
                                     {'engine_line': line}, {'impl': r})
         finally:
             cssutils.log.raiseExceptions = old_mode
+
+
+    # -- memo tables ---------------------------------------------------------------------------------------------
+    def corr_memo(self, ctx):
+        rng = ctx.sub_rng('memo')
+        hists = [(name, ops) for name, ops in MM.FIXED]
+        for i in range(ctx.n(20, 400)):
+            hists.append(('gen', MM.gen_history(rng, rng.randint(5, 18))))
+        self.memo_histories(ctx, hists)
+
+    def memo_histories(self, ctx, hists):
+        results = list(self.pool.map(lambda h: run_worker({'mode': 'memo', 'ops': h[1]}), hists))
+        lines = [MM.model_line(ops, res['G']) for (_, ops), res in zip(hists, results)]
+        model = ctx.driver(lines) if ctx.model_ok else [None] * len(lines)
+        for (tag, ops), res, m in zip(hists, results, model):
+            self.judge_memo(ctx, tag, ops, res, m)
+
+    def judge_memo(self, ctx, tag, ops, res, model_line):
+        mobs = model_line.split(' | ') if model_line else None
+        if mobs is not None:
+            # the two look-ups before the history: the import of the package (a miss) and one more parser (a hit)
+            t0 = MM.enc_items([tuple(x) for x in res['import_tables']])
+            for j, hit in ((0, '0'), (1, '1')):
+                w = mobs[j].split(' ') if j < len(mobs) else []
+                if w[:3] != ['ok', hit, '1'] or w[3] != t0 or res['import_entries'] != 1:
+                    ctx.disagree('the tokenizer tables after the import of the package', {'memo_ops': []},
+                                 'entries=%d %s' % (res['import_entries'], t0[:200]), ' '.join(w)[:260])
+                    break
+        seen_set = False
+        differed = False
+        kinds = set()
+        for i, (op, st) in enumerate(zip(ops, res['steps'])):
+            got = MM.impl_obs(st)
+            kinds.add(st['out'].split(':')[0] + (':hit' if st.get('hit') else ''))
+            if op['op'] == 'set':
+                seen_set = True
+            if st['out'] == 're.error' or st.get('fresh', {}).get('out') == 're.error':
+                ctx.count('memo:re.error-not-modelled')
+                break
+            if mobs is not None:
+                want = mobs[i + 2] if i + 2 < len(mobs) else '(missing)'
+                if want.startswith('err diverges'):
+                    ctx.count('memo:model-nofuel')
+                    break
+                if want != got and not differed:
+                    differed = True           # reported once; the oracle below still looks at every step
+                    ctx.disagree('Tokenizer.__init__ / settings.set (memo) step %d' % i, {'memo_ops': ops[:i + 1]},
+                                 got[:600], want[:600])
+            # oracle, independent of the model: the look-up returns what the computation gives past the cache
+            if op['op'] == 'new':
+                f = st['fresh']
+                same = f['out'] == st['out'] and (st['out'] != 'ok' or (
+                    f['tables'] == st['tables'] and f['comment'] == st['comment'] and f['uri'] == st['uri']))
+                if not same:
+                    ops = self.shrink_memo(ops[:i + 1])
+                    i = len(ops) - 1
+                    ctx.violate('T12.4 a Tokenizer gets the tables that the computation gives for its arguments under the '
+                                'module-level MACROS / PRODUCTIONS as they are now (look-up = recomputation)',
+                                {'memo_ops': ops[:i + 1]},
+                                {'looked_up': st['out'], 'recomputed': f['out'],
+                                 'first_difference': next(([a, b] for a, b in zip(st.get('tables') or [], f.get('tables') or [])
+                                                           if a != b), None),
+                                 'lengths': [len(st.get('tables') or []), len(f.get('tables') or [])]})
+                    break
+            if st['stale']:
+                # region of the known finding: a settings.set happened after the object was created
+                if seen_set:
+                    ctx.violate('every living Tokenizer has the tables a new Tokenizer() would get', None, None,
+                                known=MM.KNOWN_STALE)
+                else:
+                    ctx.violate('every living Tokenizer has the tables a new Tokenizer() would get',
+                                {'memo_ops': ops[:i + 1]}, {'stale': st['stale']})
+                    break
+        ctx.case(key=json.dumps(ops, sort_keys=True), nontrivial=('ok:hit' in kinds and len(kinds) >= 3),
+                 kind='memo:%s:%s' % (tag if tag == 'gen' else 'fixed', 'set' if seen_set else 'noset'),
+                 sample={'memo_ops': ops[:6]})
+        for k in kinds:
+            ctx.count('memo-step:' + k)
+
+    def memo_fails(self, ops):
+        try:
+            st = run_worker({'mode': 'memo', 'ops': ops}, timeout=120)['steps'][-1]
+        except Exception:       # noqa: B902
+            return False
+        f = st.get('fresh')
+        return bool(f) and not (f['out'] == st['out'] and (st['out'] != 'ok' or (
+            f['tables'] == st['tables'] and f['comment'] == st['comment'] and f['uri'] == st['uri'])))
+
+    def shrink_memo(self, ops, budget=16):
+        """delete steps (keeping the last) while the look-up of the last step still differs from its recomputation"""
+        if getattr(self, '_memo_shrunk', 0) >= 3:
+            return ops
+        self._memo_shrunk = getattr(self, '_memo_shrunk', 0) + 1
+        cur = list(ops)
+        i = 0
+        while i < len(cur) - 1 and budget > 0:
+            cand = cur[:i] + cur[i + 1:]
+            budget -= 1
+            if self.memo_fails(cand):
+                cur = cand
+            else:
+                i += 1
+        return cur
+
+    def corr_lazy(self, ctx):
+        import cssutils
+        from cssutils.util import LazyRegex
+        rng = ctx.sub_rng('lazy')
+        props = []
+        for prof, table in cssutils.profile._profilesProperties.items():
+            for name, v in table.items():
+                if isinstance(v, LazyRegex):
+                    props.append([prof, name])
+        props = rng.sample(props, min(len(props), ctx.n(40, 400)))
+        rounds = ctx.n(2, 8)
+        reqs = []
+        for r in range(rounds):
+            ops = [MM.gen_lazy(rng, rng.randint(1, 6)) for _ in range(len(MM.LAZY_PATTERNS) + len(props))]
+            if r == 0:
+                # the catalogue patterns meet every catalogue text once, in the order of the catalogue (so that the
+                # same pattern with other flags is used right after its twin)
+                for k in range(len(MM.LAZY_PATTERNS)):
+                    ops[k] = [('match', t) for t in MM.LAZY_TEXTS] + [('search', t) for t in MM.LAZY_TEXTS[:3]]
+            reqs.append({'mode': 'lazy', 'ops': ops, 'profile_props': props})
+        results = list(self.pool.map(run_worker, reqs))
+        lines, items = [], []
+        for req, res in zip(reqs, results):
+            for ops, o in zip(req['ops'], res):
+                ref = o['ref']
+                lines.append('lazy %d %d %d %d %d' % (int(ref['ok']), o['flags0'], ref.get('flags', 0), ref.get('groups', 0),
+                                                    len(o['steps'])))
+                items.append((ops, o))
+        model = ctx.driver(lines) if ctx.model_ok else [None] * len(lines)
+        for (ops, o), m in zip(items, model):
+            inp = {'lazy_pattern': o['pattern'][:200], 'flags': o['flags0'], 'calls': ops}
+            got = ['%s:%d:%d:%s' % ('ok' if s['got'][0] == 'ok' else ('err' if s['got'][0] == 'err' else 'none-attr'),
+                                    int(s['set']), s['flags'], 'N' if s['groups'] is None else s['groups'])
+                   for s in o['steps']]
+            if m is not None and m.split(' ') != got:
+                ctx.disagree('util.LazyRegex (memo)', inp, ' '.join(got), m)
+            init = o['init']
+            if init['set'] or init['flags'] != o['flags0'] or init['groups'] is not None:
+                ctx.disagree('util.LazyRegex before its first use', inp, json.dumps(init), 'no matcher, the flags given')
+            for (meth, text), s in zip(ops, o['steps']):
+                if s['got'] != s['want'] or not s['pattern_kept']:
+                    ctx.violate('T12.4 a LazyRegex method answers what re.compile(pattern, flags) answers, after any '
+                                'history of calls', dict(inp, method=meth, text=text),
+                                {'lazy': s['got'], 're.compile': s['want'], 'pattern_kept': s['pattern_kept']})
+                    break
+            ctx.case(key=json.dumps([o['pattern'], o['flags0'], ops]), nontrivial=len(ops) >= 2,
+                     kind='lazy:%s' % ('compiles' if o['ref']['ok'] else 're.error'),
+                     sample={'lazy_pattern': o['pattern'][:60], 'calls': ops[:4]})
 
     # -- catalogue calibration ----------------------------------------------------------------------------
     def calibrate(self, ctx):
@@ -565,12 +747,19 @@ class C12(Check):
             b = run_worker({'mode': 'history', 'ops': [{'op': 'setIndent', 'v': 1}, {'op': 'sertext', 'text': w['first']},
                                                       {'op': 'sertext', 'text': w['second']}]})
             return a[-1].get('text') != b[-1].get('text')
+        if finding['id'] == MM.KNOWN_STALE:
+            res = run_worker({'mode': 'memo', 'ops': finding['witness']['data']['memo_ops']})
+            return bool(res['steps'][-1]['stale'])
+        if finding['id'] == KNOWN_CAPTURE:
+            return bool(run_worker({'mode': 'capture'})['second_parser_sees'])
         return True
 
     def replay(self, ctx, data):
         w = data.get('witness') or {}
         if 'ops' in w:
             self.check_history(ctx, w['ops'], 'replay')
+        elif 'memo_ops' in w:
+            self.memo_histories(ctx, [('replay', w['memo_ops'])])
         elif 'engine_line' in w:
             self.engine_cases(ctx, [E.case_from_line(w['engine_line'])], 'replay')
         else:
@@ -578,6 +767,8 @@ class C12(Check):
                 inp = b.get('input') or {}
                 if 'line' in inp:
                     self.engine_cases(ctx, [E.case_from_line(inp['line'])], 'replay')
+                elif 'memo_ops' in inp:
+                    self.memo_histories(ctx, [('replay', inp['memo_ops'])])
                 elif 'ops' in inp:
                     ops = inp['ops']
                     res = run_worker({'mode': 'history', 'ops': ops})
